@@ -203,10 +203,10 @@ Print Assumptions C04_abf_state_late_definition.
 
 (* ---- T1m/T2m.  timeStepFactor k on the bias and its variables (same-step total forces; the code excludes it with
    lagged ones): [abf_mstep]/[abf_mrun_from].  The grids hold the samples of the steps at which the bias is awake
-   (step number a multiple of k); at such a step the ABF force is [spec_force] of the grids and the variable receives
+   (ABSOLUTE step number a multiple of k; k = (factor, absolute number of the job's first step)); at such a step the ABF force is [spec_force] of the grids and the variable receives
    k times it (times the scaling factor); while asleep nothing is applied and the grids do not change. *)
 Theorem C04_mts_state_is_sample_sum :
-  forall (c : @abf_cfg R) (k : Z) (h : list (@abf_in R)) (b : idx),
+  forall (c : @abf_cfg R) (k : Z * Z) (h : list (@abf_in R)) (b : idx),
     c_same_step c = true ->
     let r := abf_mrun_from Rops c k (abf_init Rops c) h in
     let S := attributed_mts Rops c k (combine h (snd r)) in
@@ -216,14 +216,14 @@ Proof. exact mts_state_is_sample_sum. Qed.
 Print Assumptions C04_mts_state_is_sample_sum.
 
 Theorem C04_mts_force :
-  forall (c : @abf_cfg R) (k : Z) (s : @abf_state R) (i : @abf_in R) (d : nat),
+  forall (c : @abf_cfg R) (k : Z * Z) (s : @abf_state R) (i : @abf_in R) (d : nat),
     (forall b, 0 <= s_cnt s b)%Z -> (d < c_nd c)%nat -> (0 <= c_min c < c_full c)%Z ->
     (c_cap c = true -> (0 <= vget Rops (c_maxf c) d)%R) ->
     let so := abf_mstep Rops c k s i in
     (awake k (st_clk s i) = true ->
        vget Rops (o_fabf (snd so)) d
          = spec_force c (i_apply i) (s_cnt (fst so)) (s_sum (fst so)) (bins Rops c (i_x i)) d /\
-       vget Rops (o_fapp (snd so)) d = (IZR k * vget Rops (o_fabf (snd so)) d * sfac Rops c (bins Rops c (i_x i)))%R) /\
+       vget Rops (o_fapp (snd so)) d = (IZR (fst k) * vget Rops (o_fabf (snd so)) d * sfac Rops c (bins Rops c (i_x i)))%R) /\
     (awake k (st_clk s i) = false ->
        vget Rops (o_f (snd so)) d = 0%R /\ vget Rops (o_fapp (snd so)) d = 0%R /\
        s_cnt (fst so) = s_cnt s /\ s_sum (fst so) = s_sum s).
@@ -320,8 +320,9 @@ Example C04_example_event_ok : Forall event_ok [EvStep (@mkIn R [(1/2)%R] [1%R] 
 Proof. exact example_event_ok. Qed.
 
 (* both branches of T2m occur *)
-Example C04_example_awake : awake 2 (0%Z, false) = true /\ awake 2 (1%Z, false) = false /\ awake 3 (6%Z, true) = true /\
-                            awake 1 (5%Z, false) = true.
+Example C04_example_awake : awake (2, 0)%Z (0%Z, false) = true /\ awake (2, 0)%Z (1%Z, false) = false /\ awake (3, 0)%Z (6%Z, true) = true /\
+                            awake (1, 0)%Z (5%Z, false) = true /\
+                            awake (7, 4294967301)%Z (5%Z, false) = true /\ awake (7, 4294967301)%Z (0%Z, false) = false.
 Proof. exact awake_examples. Qed.
 
 (* T4's premise s_started = true holds after any step *)
